@@ -855,7 +855,14 @@ impl World {
                 tr(format!("settled pending={}", self.pending_list()));
             }
             "advance" => {
-                tokio::time::sleep(Duration::from_millis(t[1].parse().unwrap())).await;
+                // keep-alive pings during the idle period are legitimate traffic: the livelock guard of
+                // the wires must not count them (ping interval >= 100 ms for every generated timeout)
+                let ms: u64 = t[1].parse().unwrap();
+                for w in &self.wires {
+                    let mut w = w.0.lock().unwrap();
+                    w.budget = w.budget.saturating_add(ms / 100 + 100);
+                }
+                tokio::time::sleep(Duration::from_millis(ms)).await;
                 self.collect();
                 tr(format!("time {}", crate::trace::now_ms()));
                 tr(format!("settled pending={}", self.pending_list()));
